@@ -137,6 +137,14 @@ type Gen struct {
 	// other users of SimpleDecl are unchanged.
 	RawNumberRate int
 	RawNumbers    int // how many such tokens have been drawn so far
+	// MoreNullish: half of the nullish items are drawn from a wider set: Dict{}, Dicts whose
+	// every pair has a null / nil key or value, the same wrapped by Add, an empty List / Custom
+	// without delimiters, an empty Tag - at every place a nullish item can go (group items, also
+	// next to other items of Values where a null Dict is skipped like any null item; Dict
+	// values; statement chains).  false (the default) = the seven kinds of before: the other
+	// users of Gen are unchanged.
+	MoreNullish bool
+	NullDicts   int // how many null Dicts have been drawn so far
 }
 
 func pick(r *rand.Rand, l []string) string { return l[r.Intn(len(l))] }
@@ -212,6 +220,57 @@ func (g *Gen) Token() term.Node {
 }
 
 func (g *Gen) nullish() term.Node {
+	if g.MoreNullish && g.R.Intn(2) == 0 {
+		null := func() term.Node {
+			switch g.R.Intn(5) {
+			case 0:
+				return term.Nil{}
+			case 1:
+				return term.S()
+			case 2:
+				return term.S(term.G("List"))
+			case 3:
+				return term.NilStmt{}
+			}
+			return term.S(term.Null())
+		}
+		nullDict := func() *term.Dict {
+			g.NullDicts++
+			d := &term.Dict{}
+			usedNil := false
+			for i := g.R.Intn(4); i > 0; i-- {
+				k, v := null(), null()
+				if _, isNil := k.(term.Nil); isNil && usedNil {
+					k = term.S() // a map holds one nil key
+				} else if isNil {
+					usedNil = true
+				}
+				if _, isNil := k.(term.NilStmt); isNil {
+					k = term.S(term.Null())
+				}
+				switch g.R.Intn(3) {
+				case 0:
+					k = term.S(term.Id(g.Ident() + string(rune('0'+i))))
+				case 1:
+					v = term.S(term.Lit(i))
+				}
+				d.Pairs = append(d.Pairs, [2]term.Node{k, v})
+			}
+			return d
+		}
+		switch g.R.Intn(6) {
+		case 0, 1:
+			return nullDict()
+		case 2:
+			return term.S(nullDict())
+		case 3:
+			return term.S(term.G("List"))
+		case 4:
+			return term.S(term.Custom(jen.Options{Separator: pick(g.R, []string{"", ",", ";"}), Multi: g.R.Intn(2) == 0}, null()))
+		default:
+			return term.S(term.Tag{}, term.S())
+		}
+	}
 	switch g.R.Intn(7) {
 	case 0:
 		return term.Nil{}
